@@ -550,7 +550,7 @@ func c06JSON(m map[string]interface{}) []byte {
 	return b
 }
 
-func sp(s string) *string { return &s }
+func c06sp(s string) *string { return &s }
 
 // the well-formed event kinds of the quantifier; doms: sender, event-ID, target, authoriser domains
 type c06Kind struct {
@@ -563,45 +563,45 @@ var c06Kinds = []c06Kind{
 		return c06Event{typ: "m.room.message", sender: "@alice:" + d[0], content: map[string]interface{}{"body": "hi", "msgtype": "m.text", "membership": "invite"}}
 	}},
 	{"topic", func(d [4]string) c06Event {
-		return c06Event{typ: "m.room.topic", sender: "@alice:" + d[0], stateKey: sp(""), content: map[string]interface{}{"topic": "t"}}
+		return c06Event{typ: "m.room.topic", sender: "@alice:" + d[0], stateKey: c06sp(""), content: map[string]interface{}{"topic": "t"}}
 	}},
 	{"nonmember-statekey-user", func(d [4]string) c06Event {
 		// a state event of another type whose state key is a user ID and whose content looks like an invite
-		return c06Event{typ: "m.room.member2", sender: "@alice:" + d[0], stateKey: sp("@bob:" + d[2]), content: map[string]interface{}{"membership": "invite", "join_authorised_via_users_server": "@carol:" + d[3]}}
+		return c06Event{typ: "m.room.member2", sender: "@alice:" + d[0], stateKey: c06sp("@bob:" + d[2]), content: map[string]interface{}{"membership": "invite", "join_authorised_via_users_server": "@carol:" + d[3]}}
 	}},
 	{"join", func(d [4]string) c06Event {
-		return c06Event{typ: "m.room.member", sender: "@alice:" + d[0], stateKey: sp("@alice:" + d[0]), content: map[string]interface{}{"membership": "join", "displayname": "A"}}
+		return c06Event{typ: "m.room.member", sender: "@alice:" + d[0], stateKey: c06sp("@alice:" + d[0]), content: map[string]interface{}{"membership": "join", "displayname": "A"}}
 	}},
 	{"join-other-statekey", func(d [4]string) c06Event {
-		return c06Event{typ: "m.room.member", sender: "@alice:" + d[0], stateKey: sp("@bob:" + d[2]), content: map[string]interface{}{"membership": "join"}}
+		return c06Event{typ: "m.room.member", sender: "@alice:" + d[0], stateKey: c06sp("@bob:" + d[2]), content: map[string]interface{}{"membership": "join"}}
 	}},
 	{"restricted-join", func(d [4]string) c06Event {
-		return c06Event{typ: "m.room.member", sender: "@alice:" + d[0], stateKey: sp("@alice:" + d[0]), content: map[string]interface{}{"membership": "join", "join_authorised_via_users_server": "@carol:" + d[3]}}
+		return c06Event{typ: "m.room.member", sender: "@alice:" + d[0], stateKey: c06sp("@alice:" + d[0]), content: map[string]interface{}{"membership": "join", "join_authorised_via_users_server": "@carol:" + d[3]}}
 	}},
 	{"invite", func(d [4]string) c06Event {
-		return c06Event{typ: "m.room.member", sender: "@alice:" + d[0], stateKey: sp("@bob:" + d[2]), content: map[string]interface{}{"membership": "invite"}}
+		return c06Event{typ: "m.room.member", sender: "@alice:" + d[0], stateKey: c06sp("@bob:" + d[2]), content: map[string]interface{}{"membership": "invite"}}
 	}},
 	{"invite-with-authorised-via", func(d [4]string) c06Event {
-		return c06Event{typ: "m.room.member", sender: "@alice:" + d[0], stateKey: sp("@bob:" + d[2]), content: map[string]interface{}{"membership": "invite", "join_authorised_via_users_server": "@carol:" + d[3]}}
+		return c06Event{typ: "m.room.member", sender: "@alice:" + d[0], stateKey: c06sp("@bob:" + d[2]), content: map[string]interface{}{"membership": "invite", "join_authorised_via_users_server": "@carol:" + d[3]}}
 	}},
 	{"third-party-invite", func(d [4]string) c06Event {
-		return c06Event{typ: "m.room.member", sender: "@alice:" + d[0], stateKey: sp("@bob:" + d[2]), content: map[string]interface{}{"membership": "invite",
+		return c06Event{typ: "m.room.member", sender: "@alice:" + d[0], stateKey: c06sp("@bob:" + d[2]), content: map[string]interface{}{"membership": "invite",
 			"third_party_invite": map[string]interface{}{"display_name": "b", "signed": map[string]interface{}{"mxid": "@bob:" + d[2], "token": "tok", "signatures": map[string]interface{}{"idserver.example": map[string]interface{}{"ed25519:0": "AAAA"}}}}}}
 	}},
 	{"leave", func(d [4]string) c06Event {
-		return c06Event{typ: "m.room.member", sender: "@alice:" + d[0], stateKey: sp("@bob:" + d[2]), content: map[string]interface{}{"membership": "leave", "join_authorised_via_users_server": "@carol:" + d[3]}}
+		return c06Event{typ: "m.room.member", sender: "@alice:" + d[0], stateKey: c06sp("@bob:" + d[2]), content: map[string]interface{}{"membership": "leave", "join_authorised_via_users_server": "@carol:" + d[3]}}
 	}},
 	{"ban", func(d [4]string) c06Event {
-		return c06Event{typ: "m.room.member", sender: "@alice:" + d[0], stateKey: sp("@bob:" + d[2]), content: map[string]interface{}{"membership": "ban"}}
+		return c06Event{typ: "m.room.member", sender: "@alice:" + d[0], stateKey: c06sp("@bob:" + d[2]), content: map[string]interface{}{"membership": "ban"}}
 	}},
 	{"knock", func(d [4]string) c06Event {
-		return c06Event{typ: "m.room.member", sender: "@alice:" + d[0], stateKey: sp("@alice:" + d[0]), content: map[string]interface{}{"membership": "knock", "join_authorised_via_users_server": "@carol:" + d[3]}}
+		return c06Event{typ: "m.room.member", sender: "@alice:" + d[0], stateKey: c06sp("@alice:" + d[0]), content: map[string]interface{}{"membership": "knock", "join_authorised_via_users_server": "@carol:" + d[3]}}
 	}},
 	{"unknown-membership", func(d [4]string) c06Event {
-		return c06Event{typ: "m.room.member", sender: "@alice:" + d[0], stateKey: sp("@bob:" + d[2]), content: map[string]interface{}{"membership": "Invite"}}
+		return c06Event{typ: "m.room.member", sender: "@alice:" + d[0], stateKey: c06sp("@bob:" + d[2]), content: map[string]interface{}{"membership": "Invite"}}
 	}},
 	{"create", func(d [4]string) c06Event {
-		return c06Event{typ: "m.room.create", sender: "@alice:" + d[0], stateKey: sp(""), content: map[string]interface{}{"creator": "@alice:" + d[0], "room_version": "x"}}
+		return c06Event{typ: "m.room.create", sender: "@alice:" + d[0], stateKey: c06sp(""), content: map[string]interface{}{"creator": "@alice:" + d[0], "room_version": "x"}}
 	}},
 }
 
@@ -1057,20 +1057,20 @@ func c06GenPseudo(c *Ctx) {
 	sig2 := map[string]interface{}{"a.example": map[string]interface{}{"ed25519:1": "AAAA"}, "b.example": map[string]interface{}{"ed25519:x": "BBBB"}}
 	cases := []pcase{
 		{"message", "m.room.message", nil, map[string]interface{}{"body": "x"}},
-		{"join-mapping-1", "m.room.member", sp(alice), map[string]interface{}{"membership": "join", "mxid_mapping": mapping(sig1)}},
-		{"join-mapping-2", "m.room.member", sp(alice), map[string]interface{}{"membership": "join", "mxid_mapping": mapping(sig2)}},
-		{"join-mapping-unsigned", "m.room.member", sp(alice), map[string]interface{}{"membership": "join", "mxid_mapping": mapping(nil)}},
-		{"join-mapping-empty-sigs", "m.room.member", sp(alice), map[string]interface{}{"membership": "join", "mxid_mapping": mapping(map[string]interface{}{})}},
-		{"join-no-mapping", "m.room.member", sp(alice), map[string]interface{}{"membership": "join"}},
-		{"join-null-mapping", "m.room.member", sp(alice), map[string]interface{}{"membership": "join", "mxid_mapping": nil}},
-		{"join-mapping-string", "m.room.member", sp(alice), map[string]interface{}{"membership": "join", "mxid_mapping": "x"}},
-		{"join-mapping-sigs-bad", "m.room.member", sp(alice), map[string]interface{}{"membership": "join", "mxid_mapping": mapping(map[string]interface{}{"a.example": "x"})}},
-		{"invite", "m.room.member", sp(bob), map[string]interface{}{"membership": "invite"}},
-		{"invite-with-mapping", "m.room.member", sp(bob), map[string]interface{}{"membership": "invite", "mxid_mapping": mapping(sig1)}},
-		{"leave", "m.room.member", sp(bob), map[string]interface{}{"membership": "leave"}},
+		{"join-mapping-1", "m.room.member", c06sp(alice), map[string]interface{}{"membership": "join", "mxid_mapping": mapping(sig1)}},
+		{"join-mapping-2", "m.room.member", c06sp(alice), map[string]interface{}{"membership": "join", "mxid_mapping": mapping(sig2)}},
+		{"join-mapping-unsigned", "m.room.member", c06sp(alice), map[string]interface{}{"membership": "join", "mxid_mapping": mapping(nil)}},
+		{"join-mapping-empty-sigs", "m.room.member", c06sp(alice), map[string]interface{}{"membership": "join", "mxid_mapping": mapping(map[string]interface{}{})}},
+		{"join-no-mapping", "m.room.member", c06sp(alice), map[string]interface{}{"membership": "join"}},
+		{"join-null-mapping", "m.room.member", c06sp(alice), map[string]interface{}{"membership": "join", "mxid_mapping": nil}},
+		{"join-mapping-string", "m.room.member", c06sp(alice), map[string]interface{}{"membership": "join", "mxid_mapping": "x"}},
+		{"join-mapping-sigs-bad", "m.room.member", c06sp(alice), map[string]interface{}{"membership": "join", "mxid_mapping": mapping(map[string]interface{}{"a.example": "x"})}},
+		{"invite", "m.room.member", c06sp(bob), map[string]interface{}{"membership": "invite"}},
+		{"invite-with-mapping", "m.room.member", c06sp(bob), map[string]interface{}{"membership": "invite", "mxid_mapping": mapping(sig1)}},
+		{"leave", "m.room.member", c06sp(bob), map[string]interface{}{"membership": "leave"}},
 		{"member-no-statekey", "m.room.member", nil, map[string]interface{}{"membership": "join", "mxid_mapping": mapping(sig1)}},
-		{"join-via-undecodable", "m.room.member", sp(alice), map[string]interface{}{"membership": "join", "mxid_mapping": mapping(sig1), "join_authorised_via_users_server": "@carol:d.example"}},
-		{"join-via-malformed", "m.room.member", sp(alice), map[string]interface{}{"membership": "join", "mxid_mapping": mapping(sig1), "join_authorised_via_users_server": "carol"}},
+		{"join-via-undecodable", "m.room.member", c06sp(alice), map[string]interface{}{"membership": "join", "mxid_mapping": mapping(sig1), "join_authorised_via_users_server": "@carol:d.example"}},
+		{"join-via-malformed", "m.room.member", c06sp(alice), map[string]interface{}{"membership": "join", "mxid_mapping": mapping(sig1), "join_authorised_via_users_server": "carol"}},
 	}
 	signers := [][]string{{}, {"alice"}, {"bob"}, {"alice", "bob"}, {"alice-bad"}, {"alice", "bob-bad"}}
 	valids := [][]string{{}, {"a.example"}, {"b.example"}, {"a.example", "b.example"}}
